@@ -44,6 +44,12 @@ def check(repo: Repo) -> Result:
 
     r5 = res.rule("C12-R5", "the memoised unit rules are found by Unit.__hash__ / __eq__: equality ignores the spelling, so the hash must include the expression (the result's expression is built from the operands'), and the registry contents id", floor=1)
     share(res, r5, "C05", lambda t: t.__dict__.update(c05.check(repo).__dict__), ["C05-R2"], want=lambda k: k == "hash-footprint")
+
+    from rules import c11, c13
+
+    r6 = res.rule("C12-R6", "a copied registry starts its own history: the deep copy owns a new table and a new unit-string cache and is built from the copied table only (shared with C13-R1 / C11-R3)", floor=3)
+    share(res, r6, "C13", lambda t: c13.ownership(repo, t), ["C13-R1"], want=lambda k: k in ("unit_registry.py:UnitRegistry.__deepcopy__", "unit-cache-owner", "deepcopy-table") or k.startswith("unit-cache-writer:"), min_keys=3)
+    share(res, r6, "C11", lambda t: c11.rebuilt_from_table(repo, t), ["C11-R3"], want=lambda k: k == "UnitRegistry.__deepcopy__:no-defaults")
     return res
 
 
@@ -301,4 +307,6 @@ MUTANTS = [
     Mutant("purge-divides-prefix-out", REG, "UnitRegistry._forget_prefixed", "and derived[:3] == (entry[0] * prefix_value, entry[1], entry[2])", "and (derived[0] / prefix_value, derived[1], derived[2]) == entry[:3]", ("C12-R2",)),
     Mutant("purge-product-commuted", REG, "UnitRegistry._forget_prefixed", "and derived[:3] == (entry[0] * prefix_value, entry[1], entry[2])", "and derived[:3] == (prefix_value * entry[0], entry[1], entry[2])", (), benign=True),
     Mutant("hash-without-expr", UO, "Unit.__hash__", "hash(self.expr)", "hash(self.base_value)", ("C12-R5",)),
+    Mutant("deepcopy-shares-table", "unyt/unit_registry.py", "UnitRegistry.__deepcopy__", "lut = dict(self.lut)", "lut = self.lut", ("C12-R6",)),
+    Mutant("deepcopy-readds-defaults", "unyt/unit_registry.py", "UnitRegistry.__deepcopy__", "add_default_symbols=False, lut=lut, unit_system=self.unit_system", "lut=lut, unit_system=self.unit_system", ("C12-R6",)),
 ]
